@@ -31,6 +31,7 @@ def dispatch (e : Engines) (ws : List String) : Engines × String :=
     if w.startsWith "rid." || w.startsWith "at." then
       let (s, o) := Driver.Rid.step e.rid ws; ({ e with rid := s }, o)
     else if w == "conc.race" then (e, "one-handle")   -- C01_unique_handle / C01_one_winner: every interleaving
+    else if w == "conc.keys" then (e, "distinct")     -- C01/C02: a key is the whole id and the type (oracle only; per-cache hash seeds)
     else if w == "conc.probe" then (e, "stable")      -- C01_presence_monotone
     else if w == "src.shortread" then (e, "same")     -- C03/C04/C16: a reader may return short reads; the member's bytes are what was packed (oracle only)
     else if w == "src.trunc" then (e, "err-or-refused") -- C03/C04: a truncated tar member is an error, never a prefix (oracle only)
